@@ -139,7 +139,7 @@ def parse_fail(line):
         return {"key": "unparsable", "message": line.strip()[:2000]}
 
 
-FATAL_OOM_RE = re.compile(r"^(fatal error: (runtime: )?out of memory|fatal error: runtime: cannot allocate memory|runtime: out of memory: cannot allocate)", re.M)
+FATAL_OOM_RE = re.compile(r"^(fatal error: (runtime: )?out of memory|fatal error: runtime: cannot allocate memory|runtime: out of memory: cannot allocate|fatal error: stack overflow)", re.M)
 
 
 def analyse_crash(text, prop_id):
@@ -159,8 +159,9 @@ def analyse_crash(text, prop_id):
         return None
     first = re.sub(r"\(\*?([A-Za-z0-9_]+)\)", r"\1", lib[0].replace("github.com/notaryproject/notation-go/", ""))
     stack = "\n".join(l for l in g.group(1).splitlines() if not l.startswith("\t"))[:1500]
-    return {"key": "%s:fatal-out-of-memory:%s" % (prop_id, first), "kind": "crash", "test": None, "failfile": None,
-            "message": "the worker process was ended by the Go runtime (%s) while library code was allocating; frames of the allocating goroutine:\n%s" % (m.group(0).strip(), stack)}
+    what = "fatal-stack-overflow" if "stack overflow" in m.group(0) else "fatal-out-of-memory"
+    return {"key": "%s:%s:%s" % (prop_id, what, first), "kind": "crash", "test": None, "failfile": None,
+            "message": "the worker process was ended by the Go runtime (%s) while library code was running; frames of the goroutine:\n%s" % (m.group(0).strip(), stack)}
 
 
 def analyse_output(text):
